@@ -9,6 +9,7 @@ import (
 	"fmt"
 	"math/big"
 	"reflect"
+	"strings"
 
 	"github.com/trustbloc/sidetree-go/pkg/commitment"
 	"github.com/trustbloc/sidetree-go/pkg/jws"
@@ -316,6 +317,27 @@ func c16EC(c *fw.Case, typ string, x, y *big.Int) {
 		})
 	}
 	add("xy-boundary-all-in-y", func(m map[string]interface{}) { m["x"] = ""; m["y"] = oracle.B64(cat) })
+	// wrong widths stay wrong under another letter case of the curve name
+	for _, cv := range []string{strings.ToUpper(typ), strings.ToLower(typ), strings.ToUpper(typ[:1]) + typ[1:]} {
+		if cv == typ {
+			continue
+		}
+		cv := cv
+		add("crv-case-variant+x-leading-zero-added", func(m map[string]interface{}) {
+			m["crv"] = cv
+			m["x"] = oracle.B64(append([]byte{0}, xb...))
+		})
+		add("crv-case-variant+y-leading-zeros-added", func(m map[string]interface{}) {
+			m["crv"] = cv
+			m["y"] = oracle.B64(append([]byte{0, 0}, yb...))
+		})
+		if zx > 0 {
+			add("crv-case-variant+x-leading-zero-dropped", func(m map[string]interface{}) { m["crv"] = cv; m["x"] = oracle.B64(xb[1:]) })
+		}
+		if zy > 0 {
+			add("crv-case-variant+y-leading-zero-dropped", func(m map[string]interface{}) { m["crv"] = cv; m["y"] = oracle.B64(yb[1:]) })
+		}
+	}
 	for _, coord := range []string{"x", "y"} {
 		coord := coord
 		src := xb
